@@ -3,12 +3,15 @@
 import json, os, re
 V = os.path.dirname(os.path.dirname(os.path.abspath(__file__)))
 last = {}
+first = {}
 p = os.path.join(V, "work", "seeded_summary.txt")
 if os.path.exists(p):
     for line in open(p):
         m = re.match(r"(\w+) (\S+) check=(\w+) rc=(\d+) violations=(\d+) wall=(\d+)s", line.strip())
         if m:
             last[m.group(2)] = m.groups()
+            if m.group(1) != "TOOLERROR" or m.group(2) not in first:
+                first.setdefault(m.group(2), m.groups())
 rows = []
 for d in sorted(os.listdir(os.path.join(V, "seeded"))):
     mp = os.path.join(V, "seeded", d, "meta.json")
@@ -21,13 +24,16 @@ for d in sorted(os.listdir(os.path.join(V, "seeded"))):
     if meta.get("coordinator_note") and r and r[0] == "MISSED":
         res = "quiet by design (see coordinator_note in meta.json)"
     needs = (meta.get("needs_to_manifest") or "").replace("\n", " ").replace("|", "/")
-    rows.append("| %s | %s | %s | %s | %s |" % (d, meta.get("property", "?"), (meta.get("summary") or "").replace("\n", " ").replace("|", "/")[:220],
-                                                needs[:260], res))
+    fr = first.get(d)
+    fres = "-" if not fr else {"CAUGHT": "caught", "MISSED": "missed", "TOOLERROR": "tool error"}[fr[0]]
+    rows.append("| %s | %s | %s | %s | %s | %s |" % (d, meta.get("property", "?"), (meta.get("summary") or "").replace("\n", " ").replace("|", "/")[:220],
+                                                     needs[:260], fres, res))
 with open(os.path.join(V, "seeded", "RESULTS.md"), "w") as f:
     f.write("# Seeded changes and what the checks say about them\n\n"
             "Each directory holds a change written by an independent sub-agent that saw only the property text and a scratch worktree\n"
             "(`patch.diff`, the demonstration `demo.diff`, `meta.json` incl. the coordinator's confirmation run). The last column is the\n"
             "result of `tools/seeded_all.sh` = `tools/mutant.sh seeded/<dir>/patch.diff <property> quick` (quick tier of the property's check\n"
-            "against a scratch worktree with the patch applied).\n\n"
-            "| seed | property | change | needs to manifest | quick tier |\n|---|---|---|---|---|\n" + "\n".join(rows) + "\n")
+            "against a scratch worktree with the patch applied): `first run` is the result when the change was first tried (before any\n"
+            "strengthening it prompted), `quick tier` the latest one.\n\n"
+            "| seed | property | change | needs to manifest | first run | quick tier |\n|---|---|---|---|---|---|\n" + "\n".join(rows) + "\n")
 print("%d seeds, %d with results" % (len(rows), sum(1 for d in last)))
